@@ -7,6 +7,7 @@ import (
 	"os"
 	"os/exec"
 	"path/filepath"
+	"regexp"
 	"strings"
 	"sync"
 	"time"
@@ -77,10 +78,18 @@ func buildQuery(o *Obligation, negate bool, withModel bool) string {
 	for _, a := range c.axioms {
 		fmt.Fprintf(&b, "(assert %s)\n", a)
 	}
+	if !o.NoQAxioms {
+		for _, a := range c.qaxioms {
+			fmt.Fprintf(&b, "(assert %s)\n", a)
+		}
+	}
 	for _, g := range c.globalFacts() {
 		fmt.Fprintf(&b, "(assert %s)\n", g)
 	}
 	for _, p := range o.PC {
+		fmt.Fprintf(&b, "(assert %s)\n", p)
+	}
+	for _, p := range o.Extra {
 		fmt.Fprintf(&b, "(assert %s)\n", p)
 	}
 	if negate {
@@ -157,6 +166,17 @@ func discharge(query string, dir, name string, timeoutS int, all bool) (SolverRe
 	if err := os.WriteFile(file, []byte(query), 0o644); err != nil {
 		return SolverResult{Result: "error", Raw: err.Error()}, nil
 	}
+	// performance hint (advisory only): the solver that discharged this obligation last time goes first
+	if h := solverHints[name]; h != "" && !all {
+		for _, s := range solvers {
+			if s.name == h {
+				r := runSolver(context.Background(), s, file, timeoutS)
+				if r.Result == "unsat" || r.Result == "sat" {
+					return r, []SolverResult{r}
+				}
+			}
+		}
+	}
 	// fast path: z3-new alone with a short limit
 	if !all {
 		quick := 3
@@ -205,6 +225,47 @@ func discharge(query string, dir, name string, timeoutS int, all bool) (SolverRe
 		}
 	}
 	return best, results
+}
+
+// solverHints maps obligation names to the solver that should be tried first (expected/<id>.hints).
+var solverHints = map[string]string{}
+
+var condDeclRe = regexp.MustCompile(`^\(define-fun ((?:c|case|guard)![0-9]+) \(\) Bool `)
+
+// splitDischarge retries an undischarged obligation as a case split on one of the branch conditions
+// of the function (the named Bool definitions c!N / case!N / guard!N): PC ∧ c ⊢ G and PC ∧ ¬c ⊢ G.
+// Both halves unsat means the obligation holds; merged (ite) states with nonlinear arithmetic are
+// often only tractable this way.
+func splitDischarge(o *Obligation, dir string, timeoutS int) (SolverResult, bool) {
+	var conds []string
+	for _, d := range o.Ctx.decls {
+		if m := condDeclRe.FindStringSubmatch(d); m != nil {
+			conds = append(conds, m[1])
+		}
+	}
+	if len(conds) > 4 {
+		conds = conds[len(conds)-4:]
+	}
+	var total int64
+	for i := len(conds) - 1; i >= 0; i-- {
+		ok := true
+		solver := ""
+		for k, extra := range []string{conds[i], "(not " + conds[i] + ")"} {
+			o2 := *o
+			o2.Extra = []string{extra}
+			r, _ := discharge(buildQuery(&o2, true, false), dir, fmt.Sprintf("%s-split%d-%d", o.Name, i, k), timeoutS, false)
+			total += r.Ms
+			if r.Result != "unsat" {
+				ok = false
+				break
+			}
+			solver = r.Solver
+		}
+		if ok {
+			return SolverResult{Solver: solver + "+split(" + conds[i] + ")", Result: "unsat", Ms: total}, true
+		}
+	}
+	return SolverResult{}, false
 }
 
 // quickSolve runs z3-new alone with a short limit (vacuity guards: only `unsat` matters).
